@@ -13,7 +13,7 @@ BOUNDS = ("Plate / slice operations on 2x3 plates (2x2 for many-to-one) with non
           "(water+NaCl+lipase on the source side, water on the destination side) and a symbolic quantity: transfer "
           "over the 18 non-overlapping geometries of C01 (incl. 3 with slices of slices) (row/col/rect/stepped/list/1->all/all->1/whole Plate either "
           "side/container->plate,list/plate,col->container/same plate disjoint) in uL and mg; remove (water, SOLID, "
-          "ENZYME) and fill_to (uL, mg, umol) on plate/row/col/rect/stepped/well/list/slice-of-slice selections; each also as a "
+          "ENZYME) and fill_to (uL, mg, umol) on plate/row/col/rect/stepped/well/list/slice-of-slice selections and on 'row:col' label strings of a plate whose labels are digit strings different from their positions; each also as a "
           "recipe step through bake, alone and after an earlier step that changed every well of the plate; 12 shape combinations that must be rejected. Oracle: the same stand-alone "
           "Container operation applied to free-standing copies of the addressed wells, folded in row-major order, "
           "executed symbolically by the same engine. Lite rounding model; 'tight' precondition q < held per source well.")
@@ -35,7 +35,12 @@ SEL = {
     'rowlabel': ('B', [(1, 0), (1, 1), (1, 2)]),
     'sub': (('SUB', (S(None), S(2, 3)), (S(0, 2), S(1, 2))), [(0, 2), (1, 2)]),
     'sublist': (('SUB', ['A:1', 'B:2', 'A:3'], S(1, None)), [(1, 1), (0, 2)]),
+    # plates with custom labels that are digit strings different from their positions (rows '2','1'; columns '30','10','20'):
+    # a 'row:col' string names labels, never positions
+    'labwell': ('1:10', [(1, 1)]),
+    'lablist': (['2:30', ('1', '20')], [(0, 0), (1, 2)]),
 }
+LABELS = (['2', '1'], ['30', '10', '20'])
 BAD_SHAPES = [  # (src item, dst item) on two 2x3 plates: neither 1->N, N->1 nor equal shapes
     ((1, S(None)), (S(None), 1)), ((S(None), S(1, 2)), (1, S(None))), (S(None), (1, S(None))),
     ((1, S(1, 2)), (1, S(None))), ((S(None), 1), (1, S(1, 2))), (['A:1', 'B:2'], (1, S(1, 2))),
@@ -68,8 +73,12 @@ def cells(tier, seed):
     return out
 
 
-def _mk_plate(h, lib, name, shape, subs, lo=Fr(1, 1000), hi=10**4):
-    P = h.env.Plate(name, '1000 L', rows=shape[0], columns=shape[1])
+def _mk_plate(h, lib, name, shape, subs, lo=Fr(1, 1000), hi=10**4, labelled=False):
+    if labelled:
+        assert shape == (2, 3)
+        P = h.env.Plate(name, '1000 L', rows=list(LABELS[0]), columns=list(LABELS[1]))
+    else:
+        P = h.env.Plate(name, '1000 L', rows=shape[0], columns=shape[1])
     for r in range(shape[0]):
         for c in range(shape[1]):
             w = P.wells[r, c]
@@ -242,7 +251,7 @@ def h_remove(h):
     p = h.p
     Recipe = h.env.Recipe
     lib = Lib(h, ['water', 'NaCl', 'lipase', 'DMSO'])
-    P = _mk_plate(h, lib, 'P', (2, 3), ['water', 'NaCl', 'lipase'], lo=0)
+    P = _mk_plate(h, lib, 'P', (2, 3), ['water', 'NaCl', 'lipase'], lo=0, labelled=p['sel'].startswith('lab'))
     item, addressed = SEL[p['sel']]
     what = _what(h, lib, p['what'])
     target = select(P, item)
@@ -276,7 +285,7 @@ def h_fill_to(h):
     p = h.p
     Recipe = h.env.Recipe
     lib = Lib(h, ['water', 'NaCl', 'lipase', 'DMSO'])
-    P = _mk_plate(h, lib, 'P', (2, 3), ['water', 'NaCl'], lo=Fr(1, 1000), hi=10**3)
+    P = _mk_plate(h, lib, 'P', (2, 3), ['water', 'NaCl'], lo=Fr(1, 1000), hi=10**3, labelled=p['sel'].startswith('lab'))
     item, addressed = SEL[p['sel']]
     prefix, base = split_unit(p['unit'])
     T = h.real('T', 0, 10**6)
